@@ -199,7 +199,77 @@ func TestVerif_C09_h2mux(t *testing.T) {
 			}
 			return "u" + strconv.Itoa(r.Intn(2))
 		}
-		for i := 0; i < nops; i++ {
+		// scenario prefixes (then the random continuation): slot accounting under a strict limit
+		// with an upload asleep on cc.cond before the pending request; callers parked with their
+		// id allocated while others start; GOAWAY in the middle of several streams
+		start := func(k int, head, upload, stall bool) {
+			b01 := map[bool]string{true: "1", false: "0"}
+			if !started[k] {
+				started[k] = true
+				startedL = append(startedL, k)
+			}
+			ops = append(ops, fmt.Sprintf("S.%d.%s.%s.%s", k, b01[head], b01[upload], b01[stall]))
+		}
+		finish := func(k int) { // one way of ending caller k's stream
+			t := "k" + strconv.Itoa(k)
+			tag := len(ops) + 1
+			switch r.Intn(5) {
+			case 0:
+				ops = append(ops, fmt.Sprintf("PH.%s.0.1.%d", t, tag))
+			case 1:
+				ops = append(ops, fmt.Sprintf("PH.%s.0.0.%d", t, tag), fmt.Sprintf("PD.%s.%d.1.%d", t, verifh.Pick(r, []int{0, 7}), tag+1))
+			case 2:
+				ops = append(ops, fmt.Sprintf("PR.%s.%d", t, verifh.Pick(r, []int{8, 7})))
+			case 3:
+				ops = append(ops, "C."+strconv.Itoa(k))
+			default:
+				ops = append(ops, fmt.Sprintf("PH.%s.0.0.%d", t, tag), "B."+strconv.Itoa(k))
+			}
+			stage[k] = 2
+		}
+		switch scenario := r.Intn(8); {
+		case scenario < 2 && nc >= 4: // slots
+			strict = true
+			maxConc = 2 + r.Intn(2)
+			if maxConc+1 > nc {
+				maxConc = nc - 1
+			}
+			perm := r.Perm(nc)
+			up := r.Intn(maxConc) // which of the admitted streams is the stalled upload
+			for i := 0; i < maxConc; i++ {
+				start(perm[i], false, i == up, false)
+			}
+			start(perm[maxConc], false, r.Intn(4) == 0, false) // has to wait for a slot
+			if maxConc+1 < nc && r.Intn(2) == 0 {
+				start(perm[maxConc+1], false, false, false) // queues behind it for reqHeaderMu
+			}
+			victim := r.Intn(maxConc)
+			for victim == up && r.Intn(4) != 0 {
+				victim = r.Intn(maxConc)
+			}
+			finish(perm[victim])
+		case scenario < 4 && nc >= 3: // ids allocated, HEADERS later
+			perm := r.Perm(nc)
+			start(perm[0], false, false, true)
+			start(perm[1], false, r.Intn(4) == 0, r.Intn(3) == 0)
+			if r.Intn(2) == 0 {
+				ops = append(ops, "C."+strconv.Itoa(perm[r.Intn(2)]))
+			}
+			ops = append(ops, "U."+strconv.Itoa(perm[0]))
+			start(perm[2], false, false, false)
+			ops = append(ops, "U."+strconv.Itoa(perm[1]))
+		case scenario < 5 && nc >= 3: // GOAWAY between streams
+			perm := r.Perm(nc)
+			if maxConc < 3 {
+				maxConc = 100
+			}
+			for i := 0; i < 3; i++ {
+				start(perm[i], false, false, false)
+			}
+			ops = append(ops, fmt.Sprintf("PG.k%d.%d", perm[r.Intn(3)], verifh.Pick(r, []int{0, 0, 2})))
+			finish(perm[r.Intn(3)])
+		}
+		for i := len(ops); i < nops; i++ {
 			tag := i + 1
 			x := r.Intn(100)
 			switch {
